@@ -445,3 +445,92 @@ Example ex_nocreds_both :
 Proof. reflexivity. Qed.
 Example ex_greets : greets ([5; 2; 0; 2] ++ ex_request) [0; 2] ex_request.
 Proof. exists 2. repeat split; try reflexivity. discriminate. Qed.
+
+(* ---------- acceptance is membership of the PAIR, not of any encoding of it ---------- *)
+Lemma subneg_on_presented : forall creds w ulen plen u p r,
+  length u = N.to_nat ulen -> length p = N.to_nat plen ->
+  subneg creds w ([SUBVER; ulen] ++ u ++ [plen] ++ p ++ r) =
+  if cred_match creds u p
+  then {| replies := w ++ [[SUBVER; ST_OK]]; out := Authenticated; rest := r |}
+  else rejected (w ++ [[SUBVER; ST_FAIL]]) r.
+Proof.
+  intros creds w ulen plen u p r Lu Lp. unfold subneg. cbn [app].
+  rewrite N.eqb_refl. cbn [negb].
+  rewrite <- Lu, read_full_app. cbn [app].
+  rewrite <- Lp, read_full_app. reflexivity.
+Qed.
+
+Lemma handle_auth_on_presented : forall (creds : list cred) i u p r,
+  creds <> [] -> presents i u p r ->
+  handle_auth false creds i =
+  if cred_match creds u p
+  then {| replies := [[VER; M_USERPASS]; [SUBVER; ST_OK]]; out := Authenticated; rest := r |}
+  else {| replies := [[VER; M_USERPASS]; [SUBVER; ST_FAIL]]; out := Rejected; rest := r |}.
+Proof.
+  intros creds i u p r Hc (n & methods & ulen & plen & Ei & Lm & Hup & Lu & Lp).
+  assert (Hn : n <> 0).
+  { intro; subst n. destruct methods; [destruct Hup | discriminate]. }
+  subst i. rewrite handle_auth_on_greeting by assumption.
+  unfold select. rewrite (is_nil_false _ _ Hc).
+  apply has_In in Hup. rewrite Hup. cbn [negb orb andb].
+  rewrite !andb_false_r. cbn [negb andb].
+  rewrite subneg_on_presented by assumption.
+  destruct (cred_match creds u p); reflexivity.
+Qed.
+
+(* whatever else is configured: a presented pair is accepted iff exactly that pair is configured *)
+Lemma pair_membership_exact : forall (creds : list cred) i u p r,
+  creds <> [] -> presents i u p r ->
+  (out (handle_auth false creds i) = Authenticated <-> In (u, p) creds).
+Proof.
+  intros creds i u p r Hc Hp. rewrite (handle_auth_on_presented creds i u p r Hc Hp).
+  rewrite <- cred_match_In. destruct (cred_match creds u p); cbn [out]; split; congruence.
+Qed.
+
+(* two pairs with the same concatenation u ++ sep ++ p (the user/password boundary moved):
+   the configured one is accepted, the other one is refused with 01 01 and the request is not read *)
+Lemma pair_boundary_matters : forall (creds : list cred) sep u p u' p' i i' r,
+  In (u, p) creds -> ~ In (u', p') creds ->
+  u ++ sep ++ p = u' ++ sep ++ p' ->
+  presents i u p r -> presents i' u' p' r ->
+  out (handle_auth false creds i) = Authenticated /\
+  handle_auth false creds i' =
+    {| replies := [[VER; M_USERPASS]; [SUBVER; ST_FAIL]]; out := Rejected; rest := r |} /\
+  s_next (serve false true true creds i') = None /\ s_dialed (serve false true true creds i') = false.
+Proof.
+  intros creds sep u p u' p' i i' r Hin Hnin _ Hp Hp'.
+  assert (Hc : creds <> []) by (intro; subst; destruct Hin).
+  split; [apply (pair_membership_exact creds i u p r Hc Hp); exact Hin|].
+  assert (E : handle_auth false creds i' =
+              {| replies := [[VER; M_USERPASS]; [SUBVER; ST_FAIL]]; out := Rejected; rest := r |}).
+  { rewrite (handle_auth_on_presented creds i' u' p' r Hc Hp').
+    destruct (cred_match creds u' p') eqn:Ec; [apply cred_match_In in Ec; contradiction | reflexivity]. }
+  split; [exact E|]. unfold serve. cbn [local_auth eqb]. rewrite E. cbn. split; reflexivity.
+Qed.
+
+(* witness: ("alice","wonder:land") configured; ("alice:wonder","land") has the same "user:password" string *)
+Definition ex_alice : list byte := [97; 108; 105; 99; 101].
+Definition ex_wonder : list byte := [119; 111; 110; 100; 101; 114].
+Definition ex_land : list byte := [108; 97; 110; 100].
+Definition ex_colon : list byte := [58].
+Definition ex_boundary_creds : list cred := [(ex_alice, ex_wonder ++ ex_colon ++ ex_land)].
+Definition ex_boundary_good : list byte :=
+  [5; 1; 2; 1; 5] ++ ex_alice ++ [11] ++ (ex_wonder ++ ex_colon ++ ex_land) ++ ex_request.
+Definition ex_boundary_shifted : list byte :=
+  [5; 1; 2; 1; 12] ++ (ex_alice ++ ex_colon ++ ex_wonder) ++ [4] ++ ex_land ++ ex_request.
+
+Example ex_boundary_same_key :
+  ex_alice ++ ex_colon ++ (ex_wonder ++ ex_colon ++ ex_land) = (ex_alice ++ ex_colon ++ ex_wonder) ++ ex_colon ++ ex_land.
+Proof. reflexivity. Qed.
+Example ex_boundary_good_presents : presents ex_boundary_good ex_alice (ex_wonder ++ ex_colon ++ ex_land) ex_request.
+Proof. exists 1, [2], 5, 11. repeat split; try reflexivity. left; reflexivity. Qed.
+Example ex_boundary_shifted_presents : presents ex_boundary_shifted (ex_alice ++ ex_colon ++ ex_wonder) ex_land ex_request.
+Proof. exists 1, [2], 12, 4. repeat split; try reflexivity. left; reflexivity. Qed.
+Example ex_boundary_good_accepted :
+  handle_auth false ex_boundary_creds ex_boundary_good =
+  {| replies := [[5; 2]; [1; 0]]; out := Authenticated; rest := ex_request |}.
+Proof. reflexivity. Qed.
+Example ex_boundary_shifted_refused :
+  serve false true true ex_boundary_creds ex_boundary_shifted =
+  {| s_replies := [[5; 2]; [1; 1]]; s_dialed := false; s_next := None |}.
+Proof. reflexivity. Qed.
